@@ -22,7 +22,7 @@ ASSUMPTIONS = [
     "CommandManager.call_strings is abstracted to a ghost call record in the execute contract (its body is inspect.signature binding + type conversion; covered by T2)",
     "str.replace(a, b) with a one-character a: the result contains no a if b does not, and equals the input if a does not occur (library contract in pyvc/libx_tools.py)",
     "re.Pattern.sub(repl, s) for _StrType.escape_sequences: the result is s when s contains no backslash (every alternative of the pattern starts with a backslash); otherwise an uninterpreted string",
-    "T2 alphabet: space, tab, ', \", backslash, a, n, x, 2, e-acute; strings <= 3 (quick) / <= 4 (thorough) as single arguments, <= 2 / <= 3 as two or three arguments",
+    "T2 alphabet: space, tab, newline, ', \", backslash, a, n, x, 2, e-acute; strings <= 3 (quick) / <= 4 (thorough) as single arguments, <= 2 / <= 3 as two or three arguments",
 ]
 Q = "mitmproxy.command_lexer:quote"
 U = "mitmproxy.command_lexer:unquote"
@@ -56,7 +56,7 @@ def spec_unquote(x):
 
 # ---- T1: quote / unquote ---------------------------------------------------------------------------------------------
 
-@scenario("quote_unquote", functions=[Q, U])
+@scenario("quote_unquote", functions=[Q, U], exact_regex=True)
 def s_quote(vc):
     v = vc.sym_str("v")
     q = vc.call(Q, v)
@@ -173,7 +173,7 @@ def s_strtype(vc):
 # =====================================================================================================================
 # T2 (bounded): the real lexer + CommandManager + converters
 
-ALPHABET = [" ", "\t", "'", '"', "\\", "a", "n", "x", "2", "é"]
+ALPHABET = [" ", "\t", "\n", "'", '"', "\\", "a", "n", "x", "2", "é"]
 
 
 def _strings(maxlen, alphabet=ALPHABET):
@@ -186,8 +186,7 @@ def _strings(maxlen, alphabet=ALPHABET):
 def _classify(kind, vals):
     """known-finding class of an input; it is part of the check name, so a recorded class never hides failures outside it"""
     cs = []
-    if any("\t" in v for v in vals):
-        cs.append("KF-C45-3")  # a tab inside an argument (pyparsing expands tabs before lexing)
+    # (a tab inside an argument used to be class KF-C45-3; fixed in /repo by parse_with_tabs(), so tabs are ordinary inputs now)
     if kind in ("str", "strs", "bytes") and any("\\" in v for v in vals):
         cs.append("KF-C45-2")  # backslash sequence in a str/bytes-typed argument
     if kind not in ("str", "strs", "bytes") and any("'" in v and '"' in v for v in vals):
@@ -268,7 +267,7 @@ def bounded(tier, seed):
             q = command_lexer.quote(v)
             # (a) the real lexer sees one token, alone and in context
             b.case(("lex", v), nontrivial=q != v)
-            cls = "KF-C45-3" if "\t" in v else ""
+            cls = ""
             toks = list(command_lexer.expr.parse_string(q, parse_all=True))
             if toks != [q]:
                 b.fail(_chk("lexer.quote_is_one_token", cls), {"value": v, "quoted": q}, f"tokens {toks!r}")
